@@ -129,7 +129,7 @@ namespace
                     runtime.__logmsg(logmessage::runtime::ArraySizeChanged(frame.diag_info_from_position(), m_size, m_array->size()));
                     m_size = m_array->size();
                 }
-                if (++m_index == m_size)
+                if (++m_index >= m_size) // (the array may have shrunk below the index)
                 {
                     runtime.context_active().push_value(m_count);
                     return result::ok;
@@ -562,7 +562,7 @@ namespace
                     runtime.__logmsg(logmessage::runtime::ArraySizeChanged(frame.diag_info_from_position(), m_size, m_array->size()));
                     m_size = m_array->size();
                 }
-                if (++m_index == m_size)
+                if (++m_index >= m_size) // (the array may have shrunk below the index)
                 {
                     return result::ok;
                 }
@@ -698,7 +698,8 @@ namespace
                     {
                         if (res->data<d_boolean, bool>())
                         {
-                            m_out.push_back(m_array->at(m_index));
+                            // the element that was tested (the code may have removed it from the array meanwhile)
+                            m_out.push_back(frame["_x"]);
                         }
                     }
                     else if (res->empty())
@@ -720,7 +721,7 @@ namespace
                     runtime.__logmsg(logmessage::runtime::ArraySizeChanged(frame.diag_info_from_position(), m_size, m_array->size()));
                     m_size = m_array->size();
                 }
-                if (++m_index == m_size)
+                if (++m_index >= m_size) // (the array may have shrunk below the index)
                 {
                     runtime.context_active().push_value(m_out);
                     return result::ok;
@@ -939,7 +940,7 @@ namespace
                     runtime.__logmsg(logmessage::runtime::ArraySizeChanged(frame.diag_info_from_position(), m_size, m_array->size()));
                     m_size = m_array->size();
                 }
-                if (++m_index == m_size)
+                if (++m_index >= m_size) // (the array may have shrunk below the index)
                 {
                     runtime.context_active().push_value(-1);
                     return result::ok;
@@ -1171,7 +1172,7 @@ namespace
                     runtime.__logmsg(logmessage::runtime::ArraySizeChanged(frame.diag_info_from_position(), m_size, m_array->size()));
                     m_size = m_array->size();
                 }
-                if (++m_index == m_size)
+                if (++m_index >= m_size) // (the array may have shrunk below the index)
                 {
                     runtime.context_active().push_value(m_out);
                     return result::ok;
